@@ -27,6 +27,7 @@ var (
 	PartitionNotFoundErr     error = errors.New("Partition not found")
 	PartitionNotOnNodeErr    error = errors.New("Partition is not loaded on the node")
 	BatchRequestTooLargerErr error = errors.New("Batch request too large")
+	InvalidBatchItemErr      error = errors.New("Invalid batch item")
 )
 
 type partitionBatchResult map[uuid.UUID]error
@@ -236,9 +237,35 @@ func (this *Dataset) Remove(ctx context.Context, id uuid.UUID) error {
 	return this.getPartitionForId(id).remove(ctx, id)
 }
 
+// Batch items end up in the replicated log as they are: everything the apply
+// loop relies on (well-formed ids, the dataset's dimension) is checked here.
+func (this *Dataset) checkBatchItems(items []*pb.BatchItem, checkValues bool) error {
+	if len(items) > maxBatchRequestSize {
+		return BatchRequestTooLargerErr
+	}
+	for _, item := range items {
+		if item == nil {
+			return InvalidBatchItemErr
+		}
+		if _, err := uuid.FromBytes(item.GetId()); err != nil {
+			return err
+		}
+		if checkValues {
+			value := math.Vector(item.GetValue())
+			if err := this.checkDimension(&value); err != nil {
+				return err
+			}
+		}
+	}
+	return nil
+}
+
 func (this *Dataset) BatchInsert(ctx context.Context, items []*pb.BatchItem) (map[uuid.UUID]error, error) {
 	if len(items) > maxBatchRequestSize {
 		return nil, BatchRequestTooLargerErr
+	}
+	if err := this.checkBatchItems(items, false); err != nil {
+		return nil, err
 	}
 
 	errors := make(map[uuid.UUID]error)
@@ -271,6 +298,9 @@ func (this *Dataset) BatchInsert(ctx context.Context, items []*pb.BatchItem) (ma
 }
 
 func (this *Dataset) PartitionBatchInsert(ctx context.Context, partitionId uuid.UUID, items []*pb.BatchItem) (map[uuid.UUID]error, error) {
+	if err := this.checkBatchItems(items, true); err != nil {
+		return nil, err
+	}
 	partition, err := this.getPartition(partitionId)
 	if err != nil {
 		return nil, err
@@ -282,6 +312,9 @@ func (this *Dataset) PartitionBatchInsert(ctx context.Context, partitionId uuid.
 func (this *Dataset) BatchUpdate(ctx context.Context, items []*pb.BatchItem) (map[uuid.UUID]error, error) {
 	if len(items) > maxBatchRequestSize {
 		return nil, BatchRequestTooLargerErr
+	}
+	if err := this.checkBatchItems(items, false); err != nil {
+		return nil, err
 	}
 
 	errors := make(map[uuid.UUID]error)
@@ -314,6 +347,9 @@ func (this *Dataset) BatchUpdate(ctx context.Context, items []*pb.BatchItem) (ma
 }
 
 func (this *Dataset) PartitionBatchUpdate(ctx context.Context, partitionId uuid.UUID, items []*pb.BatchItem) (map[uuid.UUID]error, error) {
+	if err := this.checkBatchItems(items, true); err != nil {
+		return nil, err
+	}
 	partition, err := this.getPartition(partitionId)
 	if err != nil {
 		return nil, err
@@ -325,6 +361,9 @@ func (this *Dataset) PartitionBatchUpdate(ctx context.Context, partitionId uuid.
 func (this *Dataset) BatchRemove(ctx context.Context, items []*pb.BatchItem) (map[uuid.UUID]error, error) {
 	if len(items) > maxBatchRequestSize {
 		return nil, BatchRequestTooLargerErr
+	}
+	if err := this.checkBatchItems(items, false); err != nil {
+		return nil, err
 	}
 
 	return this.partitionsBatchRequest(
@@ -339,6 +378,9 @@ func (this *Dataset) BatchRemove(ctx context.Context, items []*pb.BatchItem) (ma
 }
 
 func (this *Dataset) PartitionBatchRemove(ctx context.Context, partitionId uuid.UUID, items []*pb.BatchItem) (map[uuid.UUID]error, error) {
+	if err := this.checkBatchItems(items, false); err != nil {
+		return nil, err
+	}
 	partition, err := this.getPartition(partitionId)
 	if err != nil {
 		return nil, err
